@@ -39,6 +39,9 @@ func runC10(c *Ctx) {
 	if p == nil {
 		return
 	}
+	// shared with C03: the tokens a match is read from exist - the guard that a scored candidate has at least one token
+	// left dominates the indexing of the input's tokens (R03.2, R03.3)
+	borrowRules(c, []string{"R03.2", "R03.3"}, runC03)
 	c.R.Assume("non-constant index arithmetic (filter[off], hits[idx], diffs[start:end], Tokens[startIndex+startOffset]) is outside what this rule decides")
 	fns := v2LibFuncs(p)
 	c.R.Count("R10.1:functions", len(fns))
